@@ -185,7 +185,8 @@ class Model:
         ns.update({'_RT': self, 'OrderedDict': collections.OrderedDict,
                    'Optional': typing.Optional, 'enum': enum, 'abc': abc,
                    'UserString': collections.UserString, 'yatiml': yatiml,
-                   'dataclasses': dataclasses})
+                   'dataclasses': dataclasses, '_copy': __import__(
+                       'copy').deepcopy})
         for c in self.spec['classes']:
             src = self._source(c)
             c['_source'] = src
@@ -319,6 +320,16 @@ class Model:
             else:
                 sig.append('_yatiml_extra: OrderedDict')
         L.append('    def __init__(%s) -> None:' % ', '.join(sig))
+        # _yatiml_defaults (own or inherited): the constructor turns None
+        # into that value, the documented use of the feature
+        ovr = self._effective_override(c)
+        for p in params:
+            if p['name'] in ovr and p.get('default', 0) is None:
+                ns['_OV_%s_%s' % (name, p['name'])] = dec(
+                    ovr[p['name']], self)
+                L.append('        if %s is None:' % p['name'])
+                L.append('            %s = _copy(_OV_%s_%s)' % (
+                    p['name'], name, p['name']))
         args = ', '.join('%r: %s' % (p['name'], p['name']) for p in params)
         if c.get('extra'):
             L.append('        if _yatiml_extra is None:')
@@ -339,6 +350,18 @@ class Model:
             L.append('        return _RT.on_attributes(%r, self)' % name)
         L.extend(h.rstrip('\n') for h in hooks)
         return '\n'.join(L) + '\n'
+
+    def _effective_override(self, c):
+        """defaults_override of the nearest class in the (single
+        inheritance) chain that defines one."""
+        seen = set()
+        while c is not None and c['name'] not in seen:
+            seen.add(c['name'])
+            if c.get('defaults_override'):
+                return c['defaults_override']
+            bases = [b for b in c.get('bases', []) if b in self.cspecs]
+            c = self.cspecs[bases[0]] if bases else None
+        return {}
 
     def _all_bases(self, c):
         out = []
